@@ -35,7 +35,7 @@ RULE = ("pipelines ctf (Waves.apply_ctf by kwargs / CTF object, Aberrations, Ape
 CLAUSES = ["member:values", "axis-found", "axis-values", "axis-length", "mean:values", "mean-axis-removed",
            "waves-keep-mean-axis", "ensemble-run-completes", "position-axis", "partition"]
 QUICK = dict(n=30, time=34)
-THOROUGH = dict(n=1300, time=420, shards=16)
+THOROUGH = dict(n=10400, time=480, shards=16)
 
 # ---- own copy of the polar aberration table (symbol order = axis order is NOT assumed anywhere)
 POLAR = ["C10", "C12", "phi12", "C21", "phi21", "C23", "phi23", "C30", "C32", "phi32", "C34", "phi34", "C41", "phi41",
